@@ -521,6 +521,12 @@ Value Search::search(Position& position, Depth depth, Value alpha, Value beta,
         if (doFutilityPruning && moveIsQuiet
                 && !position.move_gives_check(move))
         {
+            // a pruned move fails low: keep that bound, otherwise a node
+            // whose moves are all pruned returns -VALUE_INFINITE, which the
+            // parent reports as a mate score
+            bestValue = std::max(
+                bestValue, info->_static_eval + (depth == 1 ? FUTILITY_DEPTH_1_MARGIN
+                                                            : FUTILITY_DEPTH_2_MARGIN));
             continue;
         }
 
